@@ -67,6 +67,61 @@ where
         Cv::<K>::rff(f).enc()
     }
 
+    // ---- op bodies: the calls into the real library, shared by the generator and the replay mode
+
+    pub fn op_converse(a: &RICF) -> Sx {
+        ok(Self::eic(&hooks::converse(&Cv::<K>::icf(a))))
+    }
+    pub fn op_operation_adjacency(a: &RHG) -> Sx {
+        ok(Self::eic(&hooks::operation_adjacency(&Cv::<K>::hg(a))))
+    }
+    pub fn op_node_adjacency(a: &RHG) -> Sx {
+        ok(Self::eic(&hooks::node_adjacency(&Cv::<K>::hg(a))))
+    }
+    pub fn op_indegree(a: &RICF) -> Sx {
+        ok(Self::eff(&hooks::indegree(&Cv::<K>::icf(a))))
+    }
+    pub fn op_dense_relative_indegree(a: &RICF, ff_: &RFF) -> Sx {
+        ok(Self::eff(&hooks::dense_relative_indegree(&Cv::<K>::icf(a), &Cv::<K>::ff(ff_))))
+    }
+    pub fn op_sparse_relative_indegree(a: &RICF, ff_: &RFF) -> Sx {
+        let (i, cn) = hooks::sparse_relative_indegree(&Cv::<K>::icf(a), &Cv::<K>::ff(ff_));
+        ok(list(vec![Self::eff(&i), Self::eff(&cn)]))
+    }
+    pub fn op_kahn(a: &RICF) -> Sx {
+        let (o, u) = hooks::kahn(&Cv::<K>::icf(a));
+        ok(list(vec![l(&K::unidx(&o)), l(&K::unarr(&u))]))
+    }
+    pub fn op_layer(a: &ROH) -> Sx {
+        let (o, u) = layer(&Cv::<K>::oh(a));
+        ok(list(vec![Self::eff(&o), l(&K::unarr(&u))]))
+    }
+    pub fn op_layered_operations(a: &ROH) -> Sx {
+        let (g, u) = layered_operations(&Cv::<K>::oh(a));
+        ok(list(vec![list(g.iter().map(|x| l(&K::unidx(x))).collect()), l(&K::unidx(&u))]))
+    }
+    pub fn op_arrow_new(g1: &RHG, h1: &RHG, w1: &RFF, x1: &RFF) -> Sx {
+        match HypergraphArrow::new(Cv::<K>::hg(g1), Cv::<K>::hg(h1), Cv::<K>::ff(w1), Cv::<K>::ff(x1)) {
+            Ok(_) => ok(Sx::S("accept")),
+            Err(e) => err(arrow_err(&e)),
+        }
+    }
+    /// unchecked construction of an arrow (public fields)
+    fn mk_arrow(g: &RHG, h: &RHG, w: &RFF, x: &RFF) -> HypergraphArrow<K, usize, usize> {
+        HypergraphArrow::<K, usize, usize> {
+            source: Cv::<K>::hg(g),
+            target: Cv::<K>::hg(h),
+            w: Cv::<K>::ff(w),
+            x: Cv::<K>::ff(x),
+        }
+    }
+    pub fn op_is_monomorphism(g1: &RHG, h1: &RHG, w1: &RFF, x1: &RFF) -> Sx {
+        ok(b(Self::mk_arrow(g1, h1, w1, x1).is_monomorphism()))
+    }
+    pub fn op_is_convex_subgraph(g1: &RHG, h1: &RHG, w1: &RFF, x1: &RFF) -> Sx {
+        ok(b(Self::mk_arrow(g1, h1, w1, x1).is_convex_subgraph()))
+    }
+
     /// an adjacency relation N -> N* with parallel entries of high multiplicity and cycles
     fn adjacency(c: &mut Ctx, m: usize) -> RICF {
         let nn = c.rng.size(m);
@@ -138,52 +193,38 @@ where
                     let t = c.rng.range(0, m);
                     let r = gen::icf(&mut c.rng, m, 3, t);
                     let a = r.clone();
-                    c.emit("graph.converse", vec![r.enc()], move || ok(Self::eic(&hooks::converse(&Cv::<K>::icf(&a)))));
+                    c.emit("graph.converse", vec![r.enc()], move || Self::op_converse(&a));
                 }
                 2 | 3 => {
                     let f = Self::dep_oh(c);
                     let a = f.h.clone();
-                    c.emit("graph.operation_adjacency", vec![f.h.enc()], move || ok(Self::eic(&hooks::operation_adjacency(&Cv::<K>::hg(&a)))));
+                    c.emit("graph.operation_adjacency", vec![f.h.enc()], move || Self::op_operation_adjacency(&a));
                     let a = f.h.clone();
-                    c.emit("graph.node_adjacency", vec![f.h.enc()], move || ok(Self::eic(&hooks::node_adjacency(&Cv::<K>::hg(&a)))));
+                    c.emit("graph.node_adjacency", vec![f.h.enc()], move || Self::op_node_adjacency(&a));
                 }
                 4 | 5 => {
                     let adj = Self::adjacency(c, m);
                     let a = adj.clone();
-                    c.emit("graph.indegree", vec![adj.enc()], move || ok(Self::eff(&hooks::indegree(&Cv::<K>::icf(&a)))));
+                    c.emit("graph.indegree", vec![adj.enc()], move || Self::op_indegree(&a));
                     let nn = adj.sources.table.len();
                     let f = if c.rng.chance(1, 10) { gen::ff_to(&mut c.rng, m, nn + 1) } else { gen::ff_to(&mut c.rng, m, nn) };
                     let (a, ff_) = (adj.clone(), f.clone());
-                    c.emit("graph.dense_relative_indegree", vec![adj.enc(), f.enc()], move || {
-                        ok(Self::eff(&hooks::dense_relative_indegree(&Cv::<K>::icf(&a), &Cv::<K>::ff(&ff_))))
-                    });
+                    c.emit("graph.dense_relative_indegree", vec![adj.enc(), f.enc()], move || Self::op_dense_relative_indegree(&a, &ff_));
                     let (a, ff_) = (adj.clone(), f.clone());
-                    c.emit("graph.sparse_relative_indegree", vec![adj.enc(), f.enc()], move || {
-                        let (i, cn) = hooks::sparse_relative_indegree(&Cv::<K>::icf(&a), &Cv::<K>::ff(&ff_));
-                        ok(list(vec![Self::eff(&i), Self::eff(&cn)]))
-                    });
+                    c.emit("graph.sparse_relative_indegree", vec![adj.enc(), f.enc()], move || Self::op_sparse_relative_indegree(&a, &ff_));
                 }
                 6 | 7 | 8 => {
                     let adj = Self::adjacency(c, m);
                     let a = adj.clone();
-                    c.emit("graph.kahn", vec![adj.enc()], move || {
-                        let (o, u) = hooks::kahn(&Cv::<K>::icf(&a));
-                        ok(list(vec![l(&K::unidx(&o)), l(&K::unarr(&u))]))
-                    });
+                    c.emit("graph.kahn", vec![adj.enc()], move || Self::op_kahn(&a));
                 }
                 9 | 10 | 11 | 12 => {
                     let f = Self::dep_oh(c);
                     gen::knobs_oh(c, &f);
                     let a = f.clone();
-                    c.emit("graph.layer", vec![f.enc()], move || {
-                        let (o, u) = layer(&Cv::<K>::oh(&a));
-                        ok(list(vec![Self::eff(&o), l(&K::unarr(&u))]))
-                    });
+                    c.emit("graph.layer", vec![f.enc()], move || Self::op_layer(&a));
                     let a = f.clone();
-                    c.emit("graph.layered_operations", vec![f.enc()], move || {
-                        let (g, u) = layered_operations(&Cv::<K>::oh(&a));
-                        ok(list(vec![list(g.iter().map(|x| l(&K::unidx(x))).collect()), l(&K::unidx(&u))]))
-                    });
+                    c.emit("graph.layered_operations", vec![f.enc()], move || Self::op_layered_operations(&a));
                 }
                 _ => {
                     // morphisms g -> h: sub-hypergraph inclusions (natural by construction), then
@@ -265,24 +306,13 @@ where
                     }
                     let args = vec![g.enc(), h.enc(), w.enc(), x.enc()];
                     let (g1, h1, w1, x1) = (g.clone(), h.clone(), w.clone(), x.clone());
-                    c.emit("graph.arrow_new", args.clone(), move || {
-                        match HypergraphArrow::new(Cv::<K>::hg(&g1), Cv::<K>::hg(&h1), Cv::<K>::ff(&w1), Cv::<K>::ff(&x1)) {
-                            Ok(_) => ok(Sx::S("accept")),
-                            Err(e) => err(arrow_err(&e)),
-                        }
-                    });
-                    let mk = move |g: &RHG, h: &RHG, w: &RFF, x: &RFF| HypergraphArrow::<K, usize, usize> {
-                        source: Cv::<K>::hg(g),
-                        target: Cv::<K>::hg(h),
-                        w: Cv::<K>::ff(w),
-                        x: Cv::<K>::ff(x),
-                    };
+                    c.emit("graph.arrow_new", args.clone(), move || Self::op_arrow_new(&g1, &h1, &w1, &x1));
                     if w.wf() && x.wf() {
                         let (g1, h1, w1, x1) = (g.clone(), h.clone(), w.clone(), x.clone());
-                        c.emit("graph.is_monomorphism", args.clone(), move || ok(b(mk(&g1, &h1, &w1, &x1).is_monomorphism())));
+                        c.emit("graph.is_monomorphism", args.clone(), move || Self::op_is_monomorphism(&g1, &h1, &w1, &x1));
                         if w.target == nn && x.target == ne {
                             let (g1, h1, w1, x1) = (g.clone(), h.clone(), w.clone(), x.clone());
-                            c.emit("graph.is_convex_subgraph", args, move || ok(b(mk(&g1, &h1, &w1, &x1).is_convex_subgraph())));
+                            c.emit("graph.is_convex_subgraph", args, move || Self::op_is_convex_subgraph(&g1, &h1, &w1, &x1));
                         }
                     }
                 }
